@@ -16,6 +16,10 @@ for pid, p in sorted(check.props.PROPS.items()):
         key = (leg["build"], leg["pkg"], tuple(leg.get("features") or ()))
         if key not in pairs:
             pairs.append(key)
+        for extra in leg.get("extra_pkgs", []):
+            key = (leg["build"], extra, ())
+            if key not in pairs:
+                pairs.append(key)
 bad = 0
 for build, pkg, feats in pairs:
     ok, _, err = check.do_build(build, pkg, list(feats) or None)
